@@ -26,16 +26,20 @@ Proof.
 Qed.
 Print Assumptions C15_forward.
 
-(* every entropy byte is absorbed into the sponge and followed by the re-key before the
-   operation returns (hence before any later output) *)
-Theorem C15_mixed : forall s d seed ok sys,
+(* BY CONSTRUCTION: this restates the bodies of Prngm.prng_feed / prng_reseed / prng_init (proof: unfolding).  It records
+   the shape in which the model was written from ascon-prng.c - the fed / system bytes are absorbed into the sponge (all of
+   them: xof_absorb, characterised by C03/C07) and the re-key follows before the operation returns, hence before any later
+   output.  It is not an independent fact about the model, and "every such byte influences all later output" is not proved
+   (it is a cryptographic property of the permutation).  That the C has this shape is shown by the differential run (full
+   state compared after every operation). *)
+Theorem C15_mixed_by_construction : forall s d seed ok sys,
   r_xof (prng_feed Perm.perm s d) = rekey Perm.perm (xof_pad Perm.perm vxof (xof_absorb Perm.perm vxof (r_xof s) d)) /\
   prng_reseed Perm.perm s ((seed, ok) :: sys) =
     ({| r_xof := rekey Perm.perm (xof_absorb Perm.perm vxof (r_xof s) seed); r_counter := 0 |}, ok, sys) /\
   prng_init Perm.perm ((seed, ok) :: sys) =
     ({| r_xof := rekey Perm.perm (xof_absorb Perm.perm vxof (xof_init_custom Perm.perm vxof (Some name_prng) [] 0) seed); r_counter := 0 |}, ok, sys).
 Proof. intros. repeat split. Qed.
-Print Assumptions C15_mixed.
+Print Assumptions C15_mixed_by_construction.
 
 (* reseeding: a fetch entered with counter >= 16384 consumes a system answer first; the counter
    equals the number of bytes produced since the last (re)seed until it saturates; counter < 32768 *)
